@@ -41,6 +41,18 @@ Inductive c14_case :=
         (go_accepted : bool)                (* the receiver opened the connection (NewConnections fired) *)
         (go_delivered : list (N * dspec))   (* what came out of PacketsIn, in order *)
         (go_key_ok : bool)                  (* every captured frame opened under the harness-derived key *)
+(* several goroutines calling SendPacket of ONE connection at once, right after it opened (the peer-list goroutine is
+   writing its frame at that moment); the peer is a live endpoint; harness/cmd/p2pframe/hammer.go *)
+| CHammer (transport : N)                      (* 0 direct, 1 small socket buffers + slow consumer of PacketsIn, 2 chunking pipe *)
+          (sent : list (list N))               (* sender i uses packet type 32 + i: the lengths of its packets, in its order *)
+          (go_delivered : list (N * N * N))    (* PacketsIn of the peer, in order, without the marker: (sender + 1, number in the
+                                                  sender's order, length) of the sent packet it is byte for byte; sender 0 = none *)
+          (go_marker : bool)                   (* the marker handed to SendPacket after every sender returned came out as well *)
+          (go_alive_tx go_alive_rx : bool)     (* both sides still had the connection registered at that moment *)
+          (go_wire : option (list (N * N * N * N)))  (* the pipe's view of the stream cut at the length prefixes: (prefix, kind,
+                                                  sender + 1, number); kind 0 does not open under the connection key, 1 peer list,
+                                                  2 packet of a sender, 3 marker, 4 a packet nobody sent *)
+          (go_wire_clean : bool)               (* the stream ended at a frame boundary and every prefix was a possible length *)
 | CSeal (mlen go_len : N) (go_roundtrip : bool)                (* Cipher.Encrypt layout; Decrypt(Encrypt m) = m *)
 | CTamper (kind mlen tried rejected : N)                        (* Cipher.Decrypt on tampered boxes, aggregated *)
 | CNilSeal (go_refused : bool)
@@ -160,8 +172,68 @@ Definition hs_go_eqb (h : hello_bytes) (g : N * N * packed * N) : bool :=
   match g with (v, p, id, port) =>
     (hb_version h =? v) && (hb_p2pver h =? p) && bytes_eqb (hb_id h) (unpack id) && (hb_port h =? port) end.
 
+(* ---- concurrent senders: the model is run under the schedule read off the observation ---- *)
+
+Fixpoint indexed {A} (i : N) (l : list A) : list (N * A) :=
+  match l with
+  | [] => []
+  | x :: r => (i, x) :: indexed (i + 1) r
+  end.
+
+Definition triple_eqb (a b : N * N * N) : bool :=
+  (fst (fst a) =? fst (fst b)) && (snd (fst a) =? snd (fst b)) && (snd a =? snd b).
+
+Definition is_nil {A} (l : list A) : bool := match l with [] => true | _ => false end.
+
+Definition hammer_type (sender1 : N) : N := 31 + sender1.       (* sender + 1 -> packet type 32 + sender; 31 is the marker *)
+
+Definition sent_len (sent : list (list N)) (sender1 seq : N) : option N :=
+  if sender1 =? 0 then None
+  else match nthN sent (sender1 - 1) with Some q => nthN q seq | None => None end.
+
+(* the wire view as a stream of the symbolic model: frame i carries nonce i; data bytes are zeros (only type and length
+   are compared) *)
+Definition hammer_chunks (k : free_key) (sent : list (list N)) (wire : list (N * N * N * N)) : list (@chunk free_key) :=
+  flat_map (fun x => match x with (i, (hdr, kind, s, q)) =>
+    let box wt n := [Raw (hdr_encode hdr); Box i (Sealed k i (payload_encode wt (repeat 0 (N.to_nat n))))] in
+    if kind =? 1 then box 1 (hdr - 30)
+    else if kind =? 3 then box (wire_type 31) (hdr - 30)
+    else if kind =? 2 then match sent_len sent s q with
+                           | Some n => box (wire_type (hammer_type s)) n
+                           | None => [Raw (hdr_encode hdr); Opaque hdr]
+                           end
+    else [Raw (hdr_encode hdr); Opaque hdr] end) (indexed 0 wire).
+
+Definition hammer_corr (sent : list (list N)) (del : list (N * N * N)) (marker alive_tx alive_rx : bool)
+    (wire : option (list (N * N * N * N))) : bool :=
+  let queues := map (indexed 0) sent in
+  let sched := map (fun x => if fst (fst x) =? 0 then length sent else N.to_nat (fst (fst x) - 1)) del in
+  let '(out, rest) := run_schedule sched queues in
+  (* the observation is a behaviour of the model: whole frames in the order of some schedule, nothing pending *)
+  list_eqb triple_eqb (map (fun x => (N.of_nat (fst x) + 1, fst (snd x), snd (snd x))) out) del &&
+  forallb is_nil rest && marker && alive_tx && alive_rx &&
+  match wire with
+  | None => true
+  | Some w =>
+      (* the length prefix of every packet frame is the one the model's sender writes *)
+      forallb (fun f => match f with (hdr, kind, s, q) =>
+                 if kind =? 2 then match sent_len sent s q with Some n => hdr =? frame_body_len n | None => false end
+                 else true end) w &&
+      (* small rounds: the model's receiver on that stream delivers what came out of PacketsIn *)
+      (if forallb (forallb (fun n => n <=? 2048)) sent && forallb (fun f => fst (fst (fst f)) <=? 4096) w then
+         let k := free_kdf 1 (free_dh 1 2) in
+         let '(l, e) := recv free_key_eqb k (hammer_chunks k sent w) in
+         let got := map (fun p => (fst p, blen (snd p))) (deliver l) in
+         (match e with REof => true | _ => false end) &&
+         list_eqb pair_eqb (filter (fun p => negb (fst p =? 31)) got)
+                  (map (fun x => (hammer_type (fst (fst x)), snd x)) del) &&
+         Bool.eqb marker (existsb (fun p => fst p =? 31) got)
+       else true)
+  end.
+
 Definition c14_corr (cfg : config) (c : c14_case) : bool :=
   match c with
+  | CHammer _ sent del marker atx arx wire _ => hammer_corr sent del marker atx arx wire
   | CConn rx_net rx_sk rx_peer rx_conns ver streams p2ps sent script acc del kok =>
       conn_corr cfg rx_net rx_sk rx_peer rx_conns ver streams p2ps sent script acc del kok
   | CSeal mlen go_len rt =>
@@ -293,8 +365,35 @@ Definition conn_prop rx_net rx_sk rx_peer (rx_conns : list N) (streams : list st
       end
   end.
 
+(* concurrent senders, on Go's observations alone: every packet sent is delivered exactly once, intact, in its sender's
+   order; the connection is not dropped; the stream the peer read was a concatenation of whole frames *)
+Definition hammer_wire_ok (del : list (N * N * N)) (w : list (N * N * N * N)) (clean : bool) : bool :=
+  let kind f := snd (fst (fst f)) in
+  let pkts := filter (fun f => (kind f =? 2) || (kind f =? 3)) w in
+  clean &&
+  forallb (fun f => (1 <=? kind f) && (kind f <=? 3)) w &&              (* every frame opens and is something that was sent *)
+  (blen (filter (fun f => kind f =? 1) w) =? 1) &&                      (* the peer list, once *)
+  (blen (filter (fun f => kind f =? 3) w) =? 1) &&                      (* the marker, once ... *)
+  (match rev pkts with f :: _ => kind f =? 3 | [] => false end) &&      (* ... behind every packet *)
+  (* the packet frames on the wire are the packets that came out of PacketsIn, in that order, with their lengths *)
+  list_eqb triple_eqb
+    (map (fun f => match f with (hdr, _, s, q) => (s, q, hdr - 30) end) (filter (fun f => kind f =? 2) w)) del &&
+  forallb (fun f => 30 <=? fst (fst (fst f))) w.
+
+Definition hammer_prop (sent : list (list N)) (del : list (N * N * N)) (marker alive_tx alive_rx : bool)
+    (wire : option (list (N * N * N * N))) (clean : bool) : N :=
+  first_fail [
+    (21, forallb (fun x => negb (fst (fst x) =? 0) && (fst (fst x) <=? blen sent)) del);   (* delivered: nobody's packet / not intact *)
+    (24, match wire with Some w => hammer_wire_ok del w clean | None => true end);        (* the stream was not whole frames *)
+    (23, marker && alive_tx && alive_rx);                                                  (* the connection was dropped *)
+    (22, forallb (fun x => match x with (i, lens) =>                                       (* lost / twice / out of the sender's order *)
+                   list_eqb pair_eqb (map (fun y => (snd (fst y), snd y)) (filter (fun y => fst (fst y) =? i + 1) del))
+                            (indexed 0 lens) end) (indexed 0 sent))
+  ].
+
 Definition c14_prop (cfg : config) (c : c14_case) : N :=
   match c with
+  | CHammer _ sent del marker atx arx wire clean => hammer_prop sent del marker atx arx wire clean
   | CConn rx_net rx_sk rx_peer rx_conns ver streams p2ps sent script acc del kok =>
       conn_prop rx_net rx_sk rx_peer rx_conns streams p2ps sent script acc del kok
   | CSeal mlen go_len rt => first_fail [(11, go_len =? 12 + mlen + 16); (12, rt)]
